@@ -1,6 +1,8 @@
 package main
 
 import (
+	"strings"
+	"sort"
 	"fmt"
 	"reflect"
 
@@ -12,19 +14,22 @@ func init() { props["C14"] = runC14 }
 
 // reachable collects every Node-typed value reachable through the tree's own fields, with the
 // (parent type, field) through which it is reached.
+// one node of the tree as found through the tree's own fields
 type reached struct {
-	typ, dump   string
+	typ         string
+	addr        uintptr // address of the struct the node is (0 when it cannot be taken)
+	val         reflect.Value
 	parent, fld string
+	up          int // index of the nearest enclosing node in the list, -1 at the top
 }
 
-// reachableNodes walks the tree's own fields. `visited` (may be nil) is the set of node dumps
-// seen by Inspect: below a node that Inspect missed the walk does not descend, so only the
-// top-most missing node of a missing subtree is reported.
-func reachableNodes(root any, visited map[string]int) []reached {
+// reachableNodes walks the tree's own fields and lists every node-typed struct it holds, with its address.
+// Iterative depth is bounded only by memory: flat operator chains give trees thousands of levels deep.
+func reachableNodes(root any) []reached {
 	var out []reached
-	var walk func(v reflect.Value, parent, fld string, depth int, byValue bool)
-	walk = func(v reflect.Value, parent, fld string, depth int, byValue bool) {
-		if !v.IsValid() || depth > 5000 {
+	var walk func(v reflect.Value, parent, fld string, up int, byValue bool)
+	walk = func(v reflect.Value, parent, fld string, up int, byValue bool) {
+		if !v.IsValid() {
 			return
 		}
 		switch v.Kind() {
@@ -32,20 +37,20 @@ func reachableNodes(root any, visited map[string]int) []reached {
 			if v.IsNil() {
 				return
 			}
-			walk(v.Elem(), parent, fld, depth+1, false)
+			walk(v.Elem(), parent, fld, up, false)
 		case reflect.Struct:
 			t := v.Type()
 			p, f := parent, fld
-			node := isNodeType(t)
-			if node {
+			if isNodeType(t) {
 				if byValue && v.IsZero() {
 					return // zero value of a by-value node field: absent, not a node of the tree
 				}
-				d := dumpVal(v)
-				out = append(out, reached{t.Name(), d, parent, fld})
-				if visited != nil && visited[d] == 0 {
-					return
+				var addr uintptr
+				if v.CanAddr() {
+					addr = v.Addr().Pointer()
 				}
+				out = append(out, reached{t.Name(), addr, v, parent, fld, up})
+				up = len(out) - 1
 				p, f = t.Name(), ""
 			}
 			for i := 0; i < v.NumField(); i++ {
@@ -53,58 +58,116 @@ func reachableNodes(root any, visited map[string]int) []reached {
 				if f != "" {
 					fn = f + "." + fn
 				}
-				walk(v.Field(i), p, fn, depth+1, true)
+				walk(v.Field(i), p, fn, up, true)
 			}
 		case reflect.Slice, reflect.Array:
 			for i := 0; i < v.Len(); i++ {
-				walk(v.Index(i), parent, fld, depth+1, false)
+				walk(v.Index(i), parent, fld, up, false)
 			}
 		case reflect.Map:
 			for _, k := range v.MapKeys() {
-				walk(v.MapIndex(k), parent, fld, depth+1, false)
+				walk(v.MapIndex(k), parent, fld, up, false)
 			}
 		}
 	}
-	walk(reflect.ValueOf(root), "", "", 0, false)
+	walk(reflect.ValueOf(root), "", "", -1, false)
 	return out
 }
 
+type visitedNode struct {
+	typ  string
+	addr uintptr
+	val  reflect.Value
+}
+
+// checkTraversal: the nodes Inspect visits are exactly the nodes the tree holds. Nodes are matched by identity
+// (type and address); what is left over on either side (a visitor handed a copy, a value held in an interface) is
+// matched by content.
 func checkTraversal(res *Result, sql string, tree *ast.AST) {
-	visited := map[string]int{}
-	nVisited := 0
+	var vis []visitedNode
 	ast.Inspect(tree, func(n ast.Node) bool {
 		if n == nil {
 			return false
 		}
 		v := reflect.ValueOf(n)
-		if v.Kind() == reflect.Pointer && v.IsNil() {
-			return false
+		if v.Kind() == reflect.Pointer {
+			if v.IsNil() {
+				return false
+			}
+			vis = append(vis, visitedNode{v.Elem().Type().Name(), v.Pointer(), v.Elem()})
+		} else {
+			vis = append(vis, visitedNode{v.Type().Name(), 0, v})
 		}
-		visited[dumpVal(v)]++
-		nVisited++
 		return true
 	})
-	reach := reachableNodes(tree, visited)
-	reachAll := reachableNodes(tree, nil)
-	reachSet := map[string]bool{}
-	for _, r := range reachAll {
-		reachSet[r.dump] = true
+	reach := reachableNodes(tree)
+	type id struct {
+		typ  string
+		addr uintptr
 	}
-	for _, r := range reach {
-		if visited[r.dump] == 0 {
-			key := "children-missing:" + r.parent + "." + r.fld
-			res.fail(key, fmt.Sprintf("Inspect never visits the %s reachable through %s.%s", r.typ, r.parent, r.fld),
-				map[string]any{"sql": sql, "node": truncate(r.dump, 300)}, nil)
+	byID := map[id][]int{}
+	for i, r := range reach {
+		if r.addr != 0 {
+			byID[id{r.typ, r.addr}] = append(byID[id{r.typ, r.addr}], i)
 		}
 	}
-	for d := range visited {
-		if !reachSet[d] {
-			res.fail("children-extra", "Inspect visits a node that is not reachable through the tree's own fields",
-				map[string]any{"sql": sql, "node": truncate(d, 300)}, nil)
+	matched := make([]bool, len(reach))
+	var leftVis []visitedNode
+	for _, v := range vis {
+		if v.addr != 0 {
+			if xs := byID[id{v.typ, v.addr}]; len(xs) > 0 {
+				matched[xs[0]] = true
+				byID[id{v.typ, v.addr}] = xs[1:]
+				continue
+			}
 		}
+		leftVis = append(leftVis, v)
 	}
-	res.statN("nodes_reachable", len(reachAll))
-	res.statN("nodes_visited", nVisited)
+	// leftovers by content
+	byDump := map[string][]int{}
+	nLeft := 0
+	for i, r := range reach {
+		if !matched[i] {
+			nLeft++
+		}
+		_ = r
+	}
+	if len(leftVis) > 0 && nLeft > 0 && nLeft <= 4000 && len(leftVis) <= 4000 {
+		for i, r := range reach {
+			if !matched[i] {
+				d := r.typ + dumpVal(r.val)
+				byDump[d] = append(byDump[d], i)
+			}
+		}
+		rest := leftVis[:0]
+		for _, v := range leftVis {
+			d := v.typ + dumpVal(v.val)
+			if xs := byDump[d]; len(xs) > 0 {
+				matched[xs[0]] = true
+				byDump[d] = xs[1:]
+				continue
+			}
+			rest = append(rest, v)
+		}
+		leftVis = rest
+	}
+	for i, r := range reach {
+		if matched[i] {
+			continue
+		}
+		if r.up >= 0 && !matched[r.up] {
+			continue // below a node that is itself missing: only the top-most missing node is reported
+		}
+		key := "children-missing:" + r.parent + "." + r.fld
+		res.fail(key, fmt.Sprintf("Inspect never visits the %s reachable through %s.%s", r.typ, r.parent, r.fld),
+			map[string]any{"sql": truncate(sql, 600), "node": truncate(dumpVal(r.val), 300)}, nil)
+	}
+	for _, v := range leftVis {
+		res.fail("children-extra", "Inspect visits a node that is not reachable through the tree's own fields",
+			map[string]any{"sql": truncate(sql, 600), "node": truncate(dumpVal(v.val), 300)}, nil)
+	}
+	res.statN("nodes_reachable", len(reach))
+	res.statN("nodes_visited", len(vis))
 }
 
 func truncate(s string, n int) string {
@@ -122,6 +185,28 @@ func runC14(c *runCtx) {
 	g := newSQLGen(c.rng.Fork())
 	for i := 0; i < c.n(3000, 60000); i++ {
 		inputs = append(inputs, g.Statement())
+	}
+	// deep and wide shapes: the parser builds left-deep trees for flat operator chains and set-operation chains, so the
+	// depth of a tree grows with the number of operands; the construct that must not be missed sits deepest
+	for _, n := range []int{150, 700, c.n(3000, 20000)} {
+		for _, op := range []string{"OR", "AND", "+", "||"} {
+			rhs := " id = 1"
+			if op == "+" || op == "||" {
+				rhs = " id"
+			}
+			inputs = append(inputs, "SELECT a FROM t WHERE id IN (SELECT s FROM deepest_"+fmt.Sprint(n)+") "+op+rhs+strings.Repeat(" "+op+rhs, n))
+			inputs = append(inputs, "SELECT (SELECT m FROM deepest) "+op+" x"+strings.Repeat(" "+op+" x", n)+" FROM t")
+		}
+		inputs = append(inputs, "SELECT a FROM t WHERE id IN (SELECT s FROM first_arm)"+strings.Repeat(" UNION SELECT b FROM u", n/4+1))
+		inputs = append(inputs, "SELECT f("+strings.Repeat("g(", 80)+"(SELECT 1 FROM innermost)"+strings.Repeat(")", 80)+") FROM t")
+	}
+	fams := make([]string, 0, len(c20Families))
+	for f := range c20Families {
+		fams = append(fams, f)
+	}
+	sort.Strings(fams)
+	for _, f := range fams {
+		inputs = append(inputs, c20Families[f](400))
 	}
 	for i, sql := range inputs {
 		tree, err := gosqlx.Parse(sql)
